@@ -475,6 +475,7 @@ IsoResult sim_isolate(const std::function<void()>& fn, int timeout_s) {
     fn();
     fflush(stderr);
     iso_emit("\x02" "DONE\n");     // explicit completion marker: recoverable UBSan reports may change the exit code
+    SIM_GCOV_DUMP();
     _exit(0);
   }
   close(po[1]); close(pe[1]);
